@@ -264,7 +264,7 @@ class Ctx:
 
     TRANSCRIPT_PREFIXES = ("ret=", "open=", "len=", "it=", "err=", "msg=", "size_ret=", "bad-", "ok", "calls=", "balance=", "mask=", "CRASH", "ABORT", "TIMEOUT")
 
-    def batch(self, scripts, variant="asan", op_timeout=10, workers=16, env=None, clean=False):
+    def batch(self, scripts, variant="asan", op_timeout=10, workers=16, env=None, clean=False, retry_timeouts=True):
         """scripts: list of (name, text). Runs them in forked children inside `workers` harness processes.
         Returns dict name -> list of transcript lines (with CRASH/ABORT/TIMEOUT markers)."""
         if not scripts:
@@ -272,9 +272,9 @@ class Ctx:
         chunks = [scripts[i::workers] for i in range(workers)]
         chunks = [c for c in chunks if c]
 
-        def one(chunk):
+        def one(chunk, budget=None):
             inp = "".join("== %s\n%s%s" % (n, t, "" if t.endswith("\n") else "\n") for (n, t) in chunk)
-            p = self.run_sfh(["batch", str(op_timeout)], inp, timeout=3600, variant=variant, env=env)
+            p = self.run_sfh(["batch", str(budget or op_timeout)], inp, timeout=3600, variant=variant, env=env)
             res = {}
             cur = None
             for line in p.stdout.split("\n"):
@@ -291,11 +291,32 @@ class Ctx:
                     res[cur].append(line)
             return res
 
+        def one_alone(script):
+            return one([script], budget=6 * op_timeout)
+
         out = {}
         with concurrent.futures.ThreadPoolExecutor(max_workers=len(chunks)) as ex:
             for r in ex.map(one, chunks):
                 out.update(r)
+        # A TIMEOUT (the per-script alarm of `sfh batch`) on a loaded machine is not yet a hang: a script that timed out is run once more, alone,
+        # with six times the budget, and the second transcript stands.  A genuine hang times out again (CRASH / ABORT lines are never re-run).
+        # At most RETRY_MAX scripts are re-run, so a library change that hangs everywhere costs a bounded amount of time and is still reported.
+        if retry_timeouts:
+            slow = [(n, t) for (n, t) in scripts if any(l.startswith("TIMEOUT") for l in out.get(n, [])) and not any(l.startswith(("CRASH", "ABORT")) for l in out.get(n, []))]
+            retried = 0
+            for (n, t) in slow[:self.RETRY_MAX]:
+                r = one_alone((n, t))
+                retried += 1
+                if n in r:
+                    out[n] = r[n]
+            if slow:
+                st = self.notes.setdefault("timeouts_retried", {"scripts_timed_out_in_the_batch": 0, "re_run_alone": 0, "still_timed_out": 0})
+                st["scripts_timed_out_in_the_batch"] += len(slow)
+                st["re_run_alone"] += retried
+                st["still_timed_out"] += sum(1 for (n, t) in slow[:self.RETRY_MAX] if any(l.startswith("TIMEOUT") for l in out.get(n, [])))
         return out
+
+    RETRY_MAX = 12
 
     # ---- verdicts ----
     def write_replay(self, name, text):
